@@ -1085,7 +1085,7 @@ def judge_macros(rec, rng, lib, suffix, table, witness, hit="macro", haveGamma=F
             try:
                 parts = [gc(reaction, {n: v}, libType=libType, multConstant=mult) for n, v in sorted(combo.items()) if v]
                 rec.hit(hit + ".additivity")
-                tot = sum(p for p in parts if p is not None)
+                tot = sum((p for p in parts if p is not None), np.zeros_like(np.asarray(mc, dtype=float)))  # the empty sum is the zero vector
                 if not close(mc, tot, np.abs(tot), 4 * REL):
                     rec.violation("macro/not-additive/%s" % key, "M(N) != sum_i M({i:N_i}) for %s" % key, dict(w, reaction=key))
             except Exception as e:
